@@ -1016,10 +1016,16 @@ def pref_sentence(rng, sp, level):
             params.append(ctx.var(y))
             txt += f' {art(v.obj.name)} {v.obj.name} with id {y}'
         cs = [{'k': 'verb', 'v': verbuse(v, neg, se, oe)}]
+        tail = ''
         if neg:
-            txt += f', whenever there is {art(v.subj.name)} {v.subj.name} with id {x}'
+            tail = f', whenever there is {art(v.subj.name)} {v.subj.name} with id {x}'
             cs.append({'k': 'ent', 'neg': False, 'e': ent(v.subj, ctx.var(x), ctx=ctx)})
-        t = f'It is preferred {phrase}{"," if comma else ""} {ptxt}{"," if comma else ""} that {txt}.'
+        if rng.random() < 0.35:
+            # the direction written after the situation: `that <situation> is maximized[, whenever …]`
+            phrase = rng.choice(['is minimized', 'is maximized'])
+            t = f'It is preferred{"," if comma else ""} {ptxt}{"," if comma else ""} that {txt} {phrase}{tail}.'
+            return Sentence(t, {'k': 'situation', 'phrase': phrase, 'prio': past, 'cs': cs, 'params': params}, 'pref-situation-suffix')
+        t = f'It is preferred {phrase}{"," if comma else ""} {ptxt}{"," if comma else ""} that {txt}{tail}.'
         return Sentence(t, {'k': 'situation', 'phrase': phrase, 'prio': past, 'cs': cs, 'params': params}, 'pref-situation')
     # variable
     phrase = rng.choice(['is minimized', 'is maximized'])
